@@ -854,6 +854,10 @@ class Peer:
 
         # CONNECTION FAILURE
         except NetworkError as network:
+            # the session is closed first: stop() puts the FSM in IDLE, and a session which was up
+            # was then closed without its "down" being reported to the API
+            self._reset('closing connection', network)
+
             # Check if maximum connection attempts reached
             if not self.can_reconnect():
                 log.debug(
@@ -862,7 +866,6 @@ class Peer:
                 )
                 self.stop()
 
-            self._reset('closing connection', network)
             return
 
         # NOTIFY THE PEER OF AN ERROR
@@ -887,6 +890,12 @@ class Peer:
 
         # THE PEER NOTIFIED US OF AN ERROR
         except Notification as notification:
+            # closed first, for the "down" of the API (see NetworkError above)
+            self._reset(
+                f'notification received ({notification.code},{notification.subcode})',
+                notification,
+            )
+
             # Check if maximum connection attempts reached
             if not self.can_reconnect():
                 log.debug(
@@ -895,10 +904,6 @@ class Peer:
                 )
                 self.stop()
 
-            self._reset(
-                f'notification received ({notification.code},{notification.subcode})',
-                notification,
-            )
             return
 
         # PROBLEM WRITING TO OUR FORKED PROCESSES
